@@ -2,6 +2,7 @@ package mon
 
 import (
 	"bytes"
+	"fmt"
 	"math/rand"
 	"sort"
 	"strings"
@@ -327,7 +328,28 @@ func (e *Env) HostileInput(r *rand.Rand) string {
 	return e.hostileInput(r)
 }
 
+// URLHeavyDoc: every URL position filled with a hostile URL.
+func URLHeavyDoc(r *rand.Rand) string {
+	u := func() string {
+		if r.Intn(2) == 0 {
+			return gen.CanonEscape(gen.SoupURL(r))
+		}
+		return gen.CanonEscape(gen.HostileURL(r))
+	}
+	switch r.Intn(3) {
+	case 0:
+		return fmt.Sprintf(`<img src="%s" alt="i">`, u())
+	case 1:
+		return fmt.Sprintf(`<a href="%s" rel="x">a</a><img src="%s"><blockquote cite="%s">q</blockquote>`, u(), u(), u())
+	}
+	return fmt.Sprintf(`<a href="%s">a</a><area href="%s"><link href="%s"><base href="%s"><img src="%s"><audio src="%s"></audio><video src="%s" poster="%s"></video><source src="%s"><track src="%s"><embed src="%s"><input src="%s" type="image"><iframe src="%s"></iframe><script src="%s"></script><q cite="%s">q</q><del cite="%s">d</del><ins cite="%s">i</ins>`,
+		u(), u(), u(), u(), u(), u(), u(), u(), u(), u(), u(), u(), u(), u(), u(), u(), u())
+}
+
 func (e *Env) hostileInput(r *rand.Rand) string {
+	if r.Intn(20) == 0 {
+		return URLHeavyDoc(r)
+	}
 	switch k := r.Intn(20); {
 	case k < 14:
 		o := e.DocOpts(1+r.Intn(3), true)
